@@ -35,6 +35,7 @@ RESERVED_NAMES = frozenset(
         "task_id",
         "cls",
         "action",
+        "n",
         TAG,
     ]
 )
